@@ -6,7 +6,7 @@
     for, each once, each with the span of the name of one of its definitions in the source
     grammar; and the accepted command and expression are computed without the bookkeeping. *)
 From CG Require Import Base.Prelude Model.Ast Model.Check Spec.Choice Spec.Mistakes Spec.Warnings.
-From CG Require Import Proofs.CheckLemmas Proofs.CheckWarnings Proofs.CheckOrder.
+From CG Require Import Proofs.CheckLemmas Proofs.CheckWarnings Proofs.CheckOrder Proofs.CheckUndefined.
 From CGgen Require Import Consts.
 
 Theorem C15_unused_plain :
@@ -38,6 +38,22 @@ Check C15_unused_for_shell :
                  exists shn shsp rhs, In (NontermDef n sp (Some (shn, shsp)) rhs) g /\
                                       is_shell shn sh = true.
 Print Assumptions C15_unused_for_shell.
+
+(** The "undefined" map holds, each once, exactly the names that the call variants use,
+    directly or through chosen plain definitions, and that stand for "any word" for the target
+    shell ([Warnings.undefined]; the exemption of [<_>] is applied by main.rs when printing). *)
+Theorem C15_undefined :
+  forall builtins g sh v,
+    from_grammar builtins g sh = Ok v ->
+    (forall y, In y (map fst (v_undefined v)) <-> In y (undefined builtins g sh))
+    /\ NoDup (map fst (v_undefined v)).
+Proof. exact undefined_exact. Qed.
+Check C15_undefined :
+  forall builtins g sh v,
+    from_grammar builtins g sh = Ok v ->
+    (forall y, In y (map fst (v_undefined v)) <-> In y (undefined builtins g sh))
+    /\ NoDup (map fst (v_undefined v)).
+Print Assumptions C15_undefined.
 
 (** The verdict, the command and the validated expression are the result of
     [from_grammar_core], which is [from_grammar] with the three warning maps deleted. *)
@@ -85,6 +101,7 @@ Definition ex_g : grammar :=
 Example ex_C15_inhabited :
   (exists v, from_grammar builtins ex_g Bash = Ok v
              /\ v_unused v = [("U", ex_sp 4)] /\ v_unused_specs v = [("T", ex_sp 6)])
+  /\ undefined builtins (ex_g ++ [CallVariant "cmd" (ex_sp 8) (Optional (NontermRef "X" 0 (ex_sp 8)) (ex_sp 8))])%list Bash = ["X"]
   /\ unused_plain ex_g = ["U"] /\ unused_for_shell ex_g Bash = ["T"]
   /\ unused_for_shell ex_g Zsh = []
   /\ List.length (remove_unused ex_g) = 4%nat.
